@@ -18,13 +18,14 @@ import lib
 import c06gen as G
 from lib import gz, gtext, glist, gbool, gopt
 
-THEOREMS = []          # filled below
+THEOREMS = ['C06_emitted_valid', 'C06_int_verdicts_agree', 'C06_str_verdicts_agree', 'C06_bool_verdicts_agree',
+            'C06_closure_check_sound', 'C06_ex_emitted_valid', 'C06_ex_int_agree', 'C06_ex_str_agree']
 FUEL = 12
 XSD_NS = 'http://www.w3.org/2001/XMLSchema'
 XSI_NS = 'http://www.w3.org/2001/XMLSchema-instance'
 D = decimal.Decimal
 
-IMPORTS = 'From SpyneV Require Import Base.Prelude Base.Ext C06.Check.\n'
+IMPORTS = 'From SpyneV Require Import Base.Prelude Base.Ext C06.Check C06.Closure.\n'
 
 
 # ------------------------------------------------------------------ driving the implementation
@@ -40,7 +41,7 @@ def make_client(app, name):
     return RP(None, app, name)
 
 
-def serve(app, body, ret=None):
+def serve(app, body, ret=None, want_out=True):
     """one request through ServerBase; returns (ctx, calls, out_bytes)"""
     from spyne.server import ServerBase
     from spyne import MethodContext
@@ -56,6 +57,8 @@ def serve(app, body, ret=None):
         srv.get_in_object(ctx)
     if ctx.in_error is None:
         srv.get_out_object(ctx)
+    if not want_out:
+        return ctx, list(G.CALLS), b''
     srv.get_out_string(ctx)
     return ctx, list(G.CALLS), b''.join(ctx.out_string)
 
@@ -68,7 +71,7 @@ EXN = {'ValueError': 'ValueError', 'TypeError': 'TypeError', 'AttributeError': '
 def verdict(app, body):
     """('accept',) | ('vfault',) | ('reject', code) | ('crash', CoqExn, name)"""
     try:
-        ctx, calls, _ = serve(app, body)
+        ctx, calls, _ = serve(app, body, want_out=False)   # the verdict is reached before anything is written
     except Exception as e:
         n = type(e).__name__
         return ('crash', EXN.get(n, 'OtherExn'), n)
@@ -321,7 +324,15 @@ def xs_key(kind, s):
             dl = d - G._EPOCH
             return (dl.days * 86400 + dl.seconds) * 10 ** 6 + _frac_us(m.group(7)) - _tz_minutes(m.group(8)) * 60 * 10 ** 6
         if kind == 'duration':
-            return 0 if _RE_DUR.match(s) else None
+            m = _RE_DUR.match(s)
+            if not m or m.group(1) or m.group(2):          # years / months have no fixed length: outside the reference
+                return None
+            def num(g, unit):
+                return decimal.Decimal(g[:-1]) * unit if g else 0
+            us = (num(m.group(3), 86400) + num(m.group(5), 3600) + num(m.group(6), 60) + num(m.group(7), 1)) * 10 ** 6
+            if us != int(us):
+                return None
+            return -int(us) if s.startswith('-') else int(us)
         if kind == 'base64Binary':
             return 0 if _RE_B64.match(s) else None
     except (ValueError, OverflowError):
@@ -409,6 +420,7 @@ class World(object):
         self.svc = G.build_service(desc, self.classes)
         self.compile_error = None
         self.app_s = G.build_app(desc, self.classes, proto, 'soft', self.svc)
+        self.app_n = G.build_app(desc, self.classes, proto, None, self.svc)
         try:
             self.app_l = G.build_app(desc, self.classes, proto, 'lxml', self.svc)
             self.schema = self.app_l.in_protocol.validation_schema
@@ -454,7 +466,7 @@ def corr_universe(check, ui, tier):
         check.mismatch('schema', 'the real schema has a shape outside the modelled syntax: %s' % e)
         return
     texts = list(notes)
-    emit_cases, xsd_cases, soft_cases = [], [], []
+    emit_cases, xsd_cases, soft_cases, conf_cases = [], [], [], []
     per_class = 3 if tier == 'quick' else 8
     docs = []
     for cid in range(n):
@@ -470,6 +482,8 @@ def corr_universe(check, ui, tier):
             vt = R.value(['ref', cid], v, W.classes[cid])
             emit_cases.append(('(%d%%nat, %s, %s, %s)' % (n + 2 * cid, gtext('m%d' % cid), vt, U0.g_xml(tree)),
                                'universe %d class %d value %s' % (ui, cid, json.dumps(v)[:400])))
+            conf_cases.append(('(%d%%nat, %s, %s)' % (n + 2 * cid, vt, gbool(not nil_required(desc, ['ref', cid], v))),
+                               'universe %d class %d conformance of %s' % (ui, cid, json.dumps(v)[:400])))
             check.count(('emit', json.dumps(desc, sort_keys=True), cid, json.dumps(v)))
             docs.append((cid, tree, 'emitted'))
         for _ in range(per_class * 2):
@@ -492,6 +506,15 @@ def corr_universe(check, ui, tier):
     lib.correspond(check, 'schema', imports, 'unit', '(fun _ => schema_covered (schema_of UU %s) SS)' % tns,
                    [('tt', 'universe %d: %s' % (ui, json.dumps(desc)[:1500]))],
                    show='(fun _ : unit => schema_diff (schema_of UU %s) SS)' % tns)
+    # the hypotheses of C06_emitted_valid hold for what is generated: well-formed universe, closed schema,
+    # conformant values (except where None stands for a class with a required attribute: the known finding)
+    lib.correspond(check, 'hyp_universe', imports, 'unit',
+                   '(fun _ => wf_univ UU && resolves_b (schema_of UU %s) UU && resolves_b SS UU)' % tns,
+                   [('tt', 'universe %d: wf_univ / resolves_b on %s' % (ui, json.dumps(desc)[:1200]))],
+                   show='(fun _ : unit => (wf_univ UU, resolves_b (schema_of UU %s) UU, resolves_b SS UU))' % tns)
+    lib.correspond(check, 'hyp_value', imports, 'nat * value * bool',
+                   '(fun c => let \'(mc, v, b) := c in Bool.eqb (vconf UU (opq_ok (olex_of OT) (ord_of RT)) %d (DRef mc) (NObj mc [v])) b)' % FUEL,
+                   conf_cases)
     lib.correspond(check, 'xsd', imports, 'xnode * bool',
                    '(fun c => Bool.eqb (valid_doc (pat_of PT) (olex_of OT) %d SS (fst c)) (snd c))' % FUEL, xsd_cases)
     lib.correspond(check, 'emit', imports, 'nat * text * value * xnode',
@@ -506,11 +529,225 @@ def corr_universe(check, ui, tier):
         check.sample({'universe': desc})
 
 
+def nil_required(desc, ty, v, as_nil=False):
+    """does the value hold None where Spyne writes an xsi:nil element of a class with a required
+    XmlAttribute (the region of the known finding C06|nil|required-attribute)?"""
+    if v[0] == 'none':
+        return as_nil and ty[0] == 'ref' and G.has_required_attr(desc, ty[1])
+    if v[0] == 'list':
+        if ty[0] == 'arr':
+            return any(nil_required(desc, ty[1], x, True) for x in v[1])
+        return False
+    if v[0] == 'obj':
+        for (_, f), x in zip(G.flat_fields(desc, v[1]), v[2]):
+            if f['kind'] != 'elem':
+                continue
+            if G.is_multi(f) and x[0] == 'list':
+                if any(nil_required(desc, f['ty'], y, f.get('default') is None) for y in x[1]):
+                    return True
+            elif nil_required(desc, f['ty'], x, f['min'] > 0 and f.get('default') is None):
+                return True
+        return False
+    return False
+
+
 def compile_shape(msg):
     m = re.search(r"Element '\{[^}]*\}(\w+)'.*?atomic type '([\w:]+)'", msg)
     if m:
         return 'facet-value|%s|%s' % (m.group(1), m.group(2))
     return re.sub(r"'[^']*'", "'_'", msg)[:80]
+
+
+# ------------------------------------------------------------------ direct oracle on the implementation
+def norm_msg(msg):
+    """lxml error message -> shape (element / attribute names and values blanked, type names kept)"""
+    if msg is None:
+        return 'no-message'
+    m = re.sub(r"Element '[^']*'", 'Element _', msg)
+    m = re.sub(r"attribute '[^']*'", 'attribute _', m)
+    m = re.sub(r"type '([^']*)'", r'type <\1>', m)
+    m = re.sub(r"facet '([^']*)'", r'facet <\1>', m)
+    m = re.sub(r"'[^']*'", '_', m)
+    m = re.sub(r"\([^)]*\)", '(_)', m)
+    return m[:110]
+
+
+def nil_missing_attr(msg):
+    return msg is not None and 'is required but missing' in msg
+
+
+def oracle_emitted(check, W, ui, cid, v, tag=''):
+    """(b): the request and the response Spyne writes for a conformant value validate against the
+    schema it publishes; (c) on the same documents: soft validation accepts what lxml accepts"""
+    from lxml import etree
+    desc, proto = W.desc, W.proto
+    rp = {'kind': 'emitted', 'proto': proto, 'universe': desc, 'cid': cid, 'value': v}
+    region = nil_required(desc, ['ref', cid], v)
+    try:
+        req = W.request(cid, v)
+    except Exception as e:
+        check.fail('C06|emit-crash|%s|%s' % (type(e).__name__, tag or leaf_shape(desc, cid, v)),
+                   'Spyne raised %s while writing a request for a conformant value' % type(e).__name__, rp)
+        return
+    check.count(('oracle-emitted', proto, req))
+    p = payload(proto, req)
+    ok, msg = W.lxml_ok(p)
+    if not ok:
+        if region and nil_missing_attr(msg):
+            key = 'C06|nil|required-attribute|emitted'
+        else:
+            key = 'C06|emitted-invalid|request|' + (tag or norm_msg(msg))
+        check.fail(key, 'the request Spyne writes for a conformant value is rejected by the schema it publishes (%s): %s -> %s'
+                   % (proto, req.decode('utf8', 'replace')[:300], msg), dict(rp, which='request'))
+    lv = verdict(W.app_l, req)
+    sv = verdict(W.app_s, req)
+    if accepted(lv) != accepted(sv) and not region:
+        check.fail('C06|verdict|emitted|lxml=%s,soft=%s|%s' % (lv[0], sv[0], tag or leaf_shape(desc, cid, v)),
+                   'schema validation and soft validation disagree on a document Spyne wrote itself (%s): %s -> lxml %r, soft %r'
+                   % (proto, req.decode('utf8', 'replace')[:300], lv, sv), dict(rp, which='verdict'))
+    # the response for the same value
+    try:
+        ctx, calls, out = serve(W.app_n, req, ret=G.to_native(desc, W.classes, v))
+        pr = payload(proto, out)
+    except Exception as e:
+        check.fail('C06|emit-crash|response|%s' % type(e).__name__, 'Spyne raised %s while answering with a conformant value'
+                   % type(e).__name__, rp)
+        return
+    if not calls:
+        return
+    ok, msg = W.lxml_ok(pr)
+    if not ok:
+        if region and nil_missing_attr(msg):
+            key = 'C06|nil|required-attribute|emitted'
+        else:
+            key = 'C06|emitted-invalid|response|' + (tag or norm_msg(msg))
+        check.fail(key, 'the response Spyne writes for a conformant value is rejected by the schema it publishes (%s): %s -> %s'
+                   % (proto, out.decode('utf8', 'replace')[:300], msg), dict(rp, which='response'))
+
+
+def leaf_shape(desc, cid, v):
+    """bases of the leaf members of the class (site of the failure)"""
+    bs = sorted(set(f['ty'][1]['base'] for _, f in G.flat_fields(desc, cid) if f['ty'][0] == 'leaf'))
+    return ','.join(bs)[:60]
+
+
+def oracle_verdicts(check, W, ui, cid, body, notes, what='generated'):
+    """(c): lxml and soft reach the same verdict on a document in declared order, unless a
+    constraint only one of them implements is at stake (notes 'schema-only:*')"""
+    notes = sorted(set(notes))
+    rp = {'kind': 'verdict', 'proto': W.proto, 'universe': W.desc, 'cid': cid, 'doc': body.decode('utf8'), 'notes': notes}
+    lv = verdict(W.app_l, body)
+    sv = verdict(W.app_s, body)
+    check.count(('oracle-verdict', W.proto, body))
+    one_sided = [n for n in notes if n.startswith('schema-only:') or n.startswith('soft-only:')]
+    finding = [n for n in notes if n.startswith('finding:')]
+    both = [n for n in notes if n not in one_sided and n not in finding]
+    if sv[0] == 'crash' or lv[0] == 'crash':
+        check.fail('C06|verdict|crash|lxml=%s,soft=%s|%s' % (lv[0], sv[0] + ':' + str(sv[-1]), ','.join(notes)[:60]),
+                   'a validator crashed on a document in declared order: %s -> lxml %r, soft %r' % (body.decode('utf8')[:300], lv, sv), rp)
+        return
+    if one_sided:
+        return
+    if accepted(lv) != accepted(sv):
+        if finding and not both:
+            key = 'C06|nil|required-attribute|verdict'
+        else:
+            key = 'C06|verdict|lxml=%s,soft=%s|%s' % (lv[0], sv[0], ','.join(notes)[:60] or 'no-departure')
+        check.fail(key, 'schema validation and soft validation disagree on a document that uses only declared members in '
+                        'declared order (%s): %s -> lxml %r, soft %r' % (W.proto, body.decode('utf8')[:400], lv, sv), rp)
+        return
+    # both agree: they must also agree with the reference reading of the declared constraints
+    if not finding:
+        want = not both
+        if accepted(lv) != want:
+            check.mismatch('oracle-reference', 'both validators %s a document the generator meant to be %s (%s): %s'
+                           % ('accept' if accepted(lv) else 'reject', 'valid' if want else 'invalid', ','.join(notes), body.decode('utf8')[:400]))
+
+
+def oracle_universe(check, ui, tier, desc=None, proto=None, tag=''):
+    from lxml import etree
+    rng = check.rng
+    proto = proto or ('xml', 'soap11', 'soap12')[ui % 3]
+    desc = desc or gen_desc(rng, tier, ui)
+    W = World(rng, desc, proto)
+    if W.compile_error:
+        check.fail('C06|compile|' + (tag or compile_shape(W.compile_error)),
+                   'the schema Spyne generates does not compile: ' + W.compile_error, {'kind': 'compile', 'proto': proto, 'universe': desc})
+        return
+    per_class = 4 if tier == 'quick' else 10
+    for cid in range(len(W.classes)):
+        for _ in range(per_class):
+            v = G.gen_conformant(rng, desc, ['ref', cid], depth=rng.randint(1, 3), nullable=False)
+            oracle_emitted(check, W, ui, cid, v, tag)
+        for _ in range(per_class * 3):
+            x, dn = G.gen_doc(rng, desc, W.classes, cid, desc['tns'], 'x', depth=rng.randint(1, 3))
+            m, body = wrap(proto, desc['tns'], 'm%d' % cid, x)
+            oracle_verdicts(check, W, ui, cid, body, dn)
+
+
+# targeted universes: the witnesses of the repaired defects and of the known findings
+def corpus():
+    def leaf(base, **fa):
+        return ['leaf', {'base': base, 'facets': fa}]
+
+    def fld(name, ty, mn=0, mx=1, nillable=True, kind='elem', choice=None, default=None):
+        return {'name': name, 'ty': ty, 'min': mn, 'max': mx, 'nillable': nillable, 'kind': kind, 'choice': choice, 'default': default}
+    out = []
+    # Decimal written in scientific notation: as a value and as a facet
+    d1 = {'tns': 'urn:tns', 'classes': [{'ns': 'urn:t', 'name': 'K0', 'parent': None, 'fields': [fld('d', leaf('decimal'))]}]}
+    out.append(('decimal-exponent-value', d1, [(0, ['obj', 0, [['dec', '2.8E+10']]]), (0, ['obj', 0, [['dec', '1E-7']]])]))
+    d2 = {'tns': 'urn:tns', 'classes': [{'ns': 'urn:t', 'name': 'K0', 'parent': None,
+                                        'fields': [fld('d', leaf('decimal', le=['dec', '1E+3']))]}]}
+    out.append(('decimal-exponent-facet', d2, [(0, ['obj', 0, [['dec', '999.5']]])]))
+    # a choice group declared before another member
+    d3 = {'tns': 'urn:tns', 'classes': [{'ns': 'urn:t', 'name': 'K0', 'parent': None,
+                                        'fields': [fld('one', leaf('integer'), choice='g'), fld('two', leaf('integer'), choice='g'),
+                                                   fld('punk', leaf('string'))]}]}
+    out.append(('choice-before-member', d3, [(0, ['obj', 0, [['int', 1], ['none'], ['text', 'x']]])]))
+    # the empty string in a non-nillable string member
+    d4 = {'tns': 'urn:tns', 'classes': [{'ns': 'urn:t', 'name': 'K0', 'parent': None,
+                                        'fields': [fld('s', leaf('string'), nillable=False), fld('m', leaf('string', min_len=1))]}]}
+    out.append(('empty-string', d4, [(0, ['obj', 0, [['text', ''], ['none']]])]))
+    # known findings: None for a class with a required attribute; a choice group in two runs
+    d5 = {'tns': 'urn:tns', 'classes': [
+        {'ns': 'urn:t', 'name': 'K0', 'parent': None, 'fields': [fld('a', leaf('string'), mn=1, kind='attr')]},
+        {'ns': 'urn:t', 'name': 'K1', 'parent': None, 'fields': [fld('x', ['ref', 0], mn=1)]}]}
+    out.append(('nil-required-attribute', d5, [(1, ['obj', 1, [['none']]])]))
+    d6 = {'tns': 'urn:tns', 'classes': [{'ns': 'urn:t', 'name': 'K0', 'parent': None,
+                                        'fields': [fld('a', leaf('integer'), choice='g'), fld('b', leaf('string')),
+                                                   fld('c', leaf('integer'), choice='g')]}]}
+    out.append(('choice-group-in-two-runs', d6, [(0, ['obj', 0, [['none'], ['text', 'x'], ['int', 3]]])]))
+    return out
+
+
+def oracle_corpus(check, tier):
+    for tag, desc, vals in corpus():
+        for proto in ('xml', 'soap11'):
+            W = World(check.rng, desc, proto)
+            if W.compile_error:
+                check.fail('C06|compile|' + tag, 'the schema Spyne generates does not compile: ' + W.compile_error,
+                           {'kind': 'compile', 'proto': proto, 'universe': desc})
+                continue
+            for cid, v in vals:
+                if tag == 'choice-group-in-two-runs':
+                    oracle_emitted_tagged(check, W, cid, v, 'C06|choice|group-in-two-runs|emitted')
+                else:
+                    oracle_emitted(check, W, 0, cid, v, tag if tag != 'nil-required-attribute' else '')
+            if tag == 'empty-string':
+                from lxml import etree
+                x = etree.Element('{urn:tns}x')
+                etree.SubElement(x, '{urn:t}m')
+                m, body = wrap(proto, desc['tns'], 'm0', x)
+                oracle_verdicts(check, W, 0, 0, body, ['elem:string:facet'], 'corpus')
+
+
+def oracle_emitted_tagged(check, W, cid, v, key):
+    rp = {'kind': 'emitted', 'proto': W.proto, 'universe': W.desc, 'cid': cid, 'value': v, 'which': 'request'}
+    req = W.request(cid, v)
+    ok, msg = W.lxml_ok(payload(W.proto, req))
+    if not ok:
+        check.fail(key, 'the request Spyne writes is rejected by the schema it publishes (%s): %s -> %s'
+                   % (W.proto, req.decode('utf8', 'replace')[:300], msg), rp)
 
 
 def run(check):
@@ -525,8 +762,11 @@ def run(check):
         ok, log = lib.build(['C06/Check.vo'])
         if not ok:
             check.mismatch('build', log[-1500:])
+    oracle_corpus(check, tier)
     for ui in range(8 if tier == 'quick' else 60):
         corr_universe(check, ui, tier)
+    for ui in range(12 if tier == 'quick' else 90):
+        oracle_universe(check, ui, tier)
     lib.flush_correspondences(check)
     return check.finish()
 
